@@ -138,6 +138,9 @@ def _case(draw):
             elif kind in ('garbage', 'emptyfile'):
                 f = {'fns': ns, 'fver': fver, 'kind': kind}
             dirs[d]['files'].append(f)
+            if fver in ('2', '2.0') and kind == 'clean' and draw(st.sampled_from([True, False])):
+                # numerically equal version strings in one directory (the statement leaves the choice open)
+                dirs[d]['files'].append(clean(ns, '2' if fver == '2.0' else '2.0'))
     for d in dirs:
         seen, keep = set(), []
         for f in d['files']:
@@ -742,6 +745,9 @@ def _play2(case, ctx, b, scratch, root, W):
                 ns = h['ns']
                 cur = sorted(_ents(states[0]))
                 if h.get('adapt') and cur:
+                    if what == 'deps':      # prefer the namespaces with the largest dependency closure
+                        cur.sort(key=lambda n: -len(closure(states[0], n) or ()))
+                        cur = cur[:2]
                     ns = cur[h['idx'] % len(cur)]
                 if what == 'registered':
                     ver = h.get('ver')
@@ -840,6 +846,8 @@ def _play2(case, ctx, b, scratch, root, W):
             drv.close()
     if stop[0]:
         labels.add('history-cut-at-known:' + stop[0])
+    if os.environ.get('C17_TRACE'):
+        print('\n'.join(trace), '\nlabels:', sorted(labels))
     ctx.label(*sorted(labels))
     if nontrivial[0]:
         ctx.note_nontrivial(case)
